@@ -133,7 +133,7 @@ def main():
             {"name": "outcomes", "path": "spec/Robust.tla, spec/Reject.tla, spec/LineMarkers.tla", "serves_properties": ["C16", "C18", "C20"], "kind_free_text": "rules evaluated on recorded outcomes"},
             {"name": "emission", "path": "spec/Emission.tla", "serves_properties": ["C09", "C14", "C08", "C10"], "kind_free_text": "emission rules evaluated on recorded outputs"},
             {"name": "cli", "path": "spec/SameOut.tla, harness/cli.go", "serves_properties": ["C09", "C12", "C16", "C20", "C11"], "kind_free_text": "the real binary must answer like the library (files, stdin, stdout, options)"},
-            {"name": "implementation-models", "path": "spec/Lowering.tla, spec/LoweringConform.tla, spec/LoweringRefine.tla, spec/ParserModel.tla, spec/ParserConform.tla, spec/ParserAll.tla, spec/LexModel.tla, spec/LexAll.tla, spec/CmdModel.tla, spec/CmdAll.tla, spec/StmtModel.tla, spec/StmtAll.tla, spec/TopModel.tla, spec/TopAll.tla, spec/Layout.tla, spec/HoistInd.tla, spec/FormatTextSym.tla", "serves_properties": [], "kind_free_text": "models of the emitter's and the condition parser's algorithms, bound line-for-line / tree-for-tree to the real code (./check lowering | parsermodel | lexmodel | cmdmodel | stmtmodel | topmodel | layout | selftest), and Apalache runs on the hoisting and format() models (./check hoistind | formatsym); drift / model-level reports, never verdicts"},
+            {"name": "implementation-models", "path": "spec/Lowering.tla, spec/LoweringConform.tla, spec/LoweringRefine.tla, spec/ParserModel.tla, spec/ParserConform.tla, spec/ParserAll.tla, spec/LexModel.tla, spec/LexAll.tla, spec/CmdModel.tla, spec/CmdAll.tla, spec/StmtModel.tla, spec/StmtAll.tla, spec/TopModel.tla, spec/TopAll.tla, spec/ListModel.tla, spec/ListAll.tla, spec/Layout.tla, spec/HoistInd.tla, spec/FormatTextSym.tla", "serves_properties": [], "kind_free_text": "models of the emitter's and the condition parser's algorithms, bound line-for-line / tree-for-tree to the real code (./check lowering | parsermodel | lexmodel | cmdmodel | stmtmodel | topmodel | listmodel | layout | selftest), and Apalache runs on the hoisting and format() models (./check hoistind | formatsym); drift / model-level reports, never verdicts"},
         ],
         "checks": checks,
         "not_applicable": na,
